@@ -897,6 +897,24 @@ package query
 //@   modifies *
 //@   modifies cursorServedBy
 
+// C17 / C07: the sort keys an analytic function computes for its own ORDER BY do not outlive it: the next analytic function
+// (RANK without ORDER BY, ...) and the query's own ORDER BY / LIMIT WITH TIES start without keys
+//@ func NewFunctionNotExistError
+//@   trusted assumed: error constructor
+//@   ensures result != nil
+//@   modifies fresh
+//@ func (Header).ContainsObject
+//@   trusted assumed: header lookup by the printed form of the expression; writes nothing
+//@   modifies nothing
+//@ func (*View).evalAnalyticFunction
+//@   property C17 C07
+//@   abstract *
+//@   requires view != nil && view.sortValuesInEachRecord == nil && view.sortDirections == nil && view.sortNullPositions == nil
+//@   ensures [sort-keys-of-the-function-do-not-outlive-it] result == nil ==> view.sortValuesInEachRecord == nil
+//@   ensures [sort-directions-of-the-function-do-not-outlive-it] result == nil ==> view.sortDirections == nil
+//@   ensures [null-positions-of-the-function-do-not-outlive-it] result == nil ==> view.sortNullPositions == nil
+//@   modifies *
+
 // a child block: one new (pooled, cleared) block in front of the parent's blocks, which are shared, not copied
 //@ func (*ReferenceScope).CreateChild
 //@   property C15
